@@ -34,7 +34,7 @@ claim("C04",
 claim("C05",
       "Static conformance analysis (partial, exact) of pack/unpack siblings: attrs key sets, which unpack branch decodes each pack exit, the None-sentinel "
       "table vs the reader's dtype dispatch (with numpy's subtype order), exhaustive type dispatch ending in raise, jagged offset step = values appended, "
-      "flag byte order / order-sensitive fast path / remap dictionary, serializer name+version protocol. Value-level round trip is not decided.",
+      "flag byte order / order-sensitive fast path / remap dictionary, serializer name+version protocol, and every data-dependent cast on the write path being compared with its source. Value-level round trip is not decided.",
       COMMON_NOTE, "ast sibling agreement + decision-tree simulation + all-paths event counting", "DESIGN.md section 3 C05")
 
 claim("C01",
